@@ -44,7 +44,9 @@ def gen_text(rng, long=False):
 
 
 def make_test(mod, cls, meth):
-    c = type(cls, (unittest.TestCase,), {"__module__": mod, meth: lambda self: None})
+    # "Outer.Inner": a test class nested in another class (its __name__ is Inner, its own dotted path Outer.Inner)
+    c = type(cls.rsplit(".", 1)[-1], (unittest.TestCase,), {"__module__": mod, meth: lambda self: None})
+    c.__qualname__ = cls
     return c(meth)
 
 
@@ -201,7 +203,7 @@ def gen_hist(rng):
     hist = []
     for _ in range(rng.randint(1, 12)):
         m = rng.choice(mods)
-        c = rng.choice(["TestA", "TestB", "TestA", "TestB", "Test\u0391", "Test\u0392", "Test_A", "Test A", "Test-A"])
+        c = rng.choice(["TestA", "TestB", "TestA", "TestB", "Test\u0391", "Test\u0392", "Test_A", "Test A", "Test-A", "Outer.TestA", "Outer.Inner"])
         meth = rng.choice(["test_one", "test_two", "test_x"])
         k = rng.random()
         kind = rng.choice(["success", "failure", "error"])
